@@ -88,6 +88,11 @@ def make_mo(rng, obasis, atcoords, kind="restricted", occ="closed", norb=None):
             occs[:nocc] = [2.0, 1.0][:nocc]
             amb = np.zeros(n)
             amb[nocc - 1] = 1.0 if nocc >= 2 else 0.0
+            if n >= 3 and rng.random() < 0.4:
+                # two singly occupied orbitals, half an alpha and half a beta electron in each: the difference is zero everywhere,
+                # which is not the same as absent (the integer heuristic would make a triplet of it)
+                occs[:3] = [2.0, 1.0, 1.0]
+                amb = np.zeros(n)
         elif occ == "nonaufbau" and n >= 3:
             occs[:] = 0.0
             occs[0] = 2.0
